@@ -44,6 +44,9 @@ ENGINES = [  # (engine, params, cases)
     ("E8", {"table": "invalid"}, 38),
     ("E8", {"table": "matrix"}, 432),
     ("E7", {"min_T": 120}, 4),
+    ("E3", {"profile": "core", "templates": ["syncfan", "loop"]}, 300),
+    ("E4", {"mixed": 1, "kind": "cont_nacc"}, 400),
+    ("E7", {"stores": 1}, 200),
 ]
 
 
